@@ -4,11 +4,15 @@ use crate::case::{CaseOut, Ctx};
 
 pub mod c01;
 pub mod c02;
+#[cfg(feature = "ref")]
+pub mod c03;
 
 pub fn n_cases(ctx: &Ctx) -> u64 {
     match ctx.prop.as_str() {
         "C01" => c01::n_cases(ctx),
         "C02" => c02::n_cases(ctx),
+        #[cfg(feature = "ref")]
+        "C03" => c03::n_cases(ctx),
         _ => 0,
     }
 }
@@ -17,6 +21,8 @@ pub fn run_case(ctx: &Ctx, idx: u64) -> Vec<CaseOut> {
     match ctx.prop.as_str() {
         "C01" => c01::run_case(ctx, idx),
         "C02" => c02::run_case(ctx, idx),
+        #[cfg(feature = "ref")]
+        "C03" => c03::run_case(ctx, idx),
         _ => Vec::new(),
     }
 }
